@@ -242,6 +242,15 @@ func stallOnce(kind, point string, m int, d time.Duration) (string, string) {
 
 func (stallComp) Exec(op string) (string, string, string, bool) {
 	f := strings.Fields(op)
+	if len(f) == 5 && (f[4] == "sf" || f[4] == "gf") {
+		m, _ := strconv.Atoi(f[2])
+		hold, err := strconv.Atoi(f[3])
+		if err != nil || hold < 0 || hold > 120 {
+			return "bad-op", "", "bad", false
+		}
+		out, why := stallHoldOp(f[0], f[1], m, time.Duration(hold)*time.Second, f[4] == "gf")
+		return out, why, f[0] + " " + f[1] + " hold", out == "served"
+	}
 	if len(f) != 3 {
 		return "bad-op", "", "bad", false
 	}
@@ -269,7 +278,18 @@ func (stallComp) Gen(r *Rand, tier string, emit func(string)) {
 	emit("starttls starttlshello 1")
 	emit("ws connect 2")
 	emit("udp connect 1")
+	// the established client's session is held while the peers stay stalled (any handshake watchdog or deadline the
+	// server arms for the stalled peers expires meanwhile)
+	emit("tcp connect 1 12 sf")
 	if tier == "thorough" {
+		emit("tcp connect 1 25 sf")
+		emit("tcp partial 2 25 gf")
+		emit("starttls between 1 25 sf")
+		emit("tcptls tlshello 1 25 sf")
+		emit("ws connect 1 25 sf")
+		emit("udp connect 1 25 sf")
+		emit("tcp connect 2 45 gf")
+		emit("tcp garbage 1 65 sf")
 		for _, k := range []string{"tcp", "starttls"} {
 			for _, p := range []string{"connect", "partial", "garbage", "between", "afterupgrade"} {
 				emit(k + " " + p + " 5")
